@@ -13,7 +13,7 @@ from pathlib import Path
 
 REPO = Path(os.environ.get("VERIF_REPO", "/repo"))
 SRC = REPO / "src" / "_pytask"
-OUT = Path(__file__).resolve().parent.parent / "lean" / "PytaskModel" / "Generated.lean"
+OUT = Path(os.environ.get("VERIF_LEAN") or (Path(__file__).resolve().parent.parent / "lean")) / "PytaskModel" / "Generated.lean"
 
 
 class ExtractError(Exception):
